@@ -57,7 +57,7 @@ ModeOf(m) == IF m = "r" THEN SFM_READ ELSE IF m = "w" THEN SFM_WRITE ELSE SFM_RD
 
 \* observation of a data-path call, from the event
 ObsOf(e) == [ret |-> Get(e, "ret", 0), out |-> Get(e, "out", <<>>), outn |-> Get(e, "outn", Len(Get(e, "out", <<>>))), tz |-> Get(e, "tz", 1), guard |-> Get(e, "guard", 1),
-             er |-> e.st.er, rp |-> e.st.rp, wp |-> e.st.wp, fr |-> e.st.fr]
+             er |-> e.st.er, rp |-> e.st.rp, wp |-> e.st.wp, fr |-> e.st.fr, nd |-> e.st.nd, nf |-> e.st.nf]
 
 CallOf(e) == CASE e.op = "read"  -> [op |-> "read", T |-> e.T, unit |-> e.unit, n |-> e.n]
                [] e.op = "write" -> [op |-> "write", T |-> e.T, unit |-> e.unit, n |-> e.n, v |-> e.v]
@@ -69,6 +69,55 @@ CallOf(e) == CASE e.op = "read"  -> [op |-> "read", T |-> e.T, unit |-> e.unit, 
 \* the public error query agrees with the hook, and the hook agrees with the model's view of have_written
 HookOK(s, e) == /\ Has(e, "err") => (e.err # 0) = (e.st.er # 0)
                 /\ e.st.md = s.mode
+
+-----------------------------------------------------------------------------
+\* C18: signal maxima.  Values are compared exactly: float/double samples are logged as dyadics on the k/1024 grid,
+\* integer samples as integers; the expected maximum is computed here from the content the model holds.
+GridQ == 10
+IsPcmInt(fmt) == Sub(fmt) \in {S_PCM_S8, S_PCM_U8, S_PCM_16, S_PCM_24, S_PCM_32}
+IsFloatEnc(fmt) == Sub(fmt) \in {S_FLOAT, S_DOUBLE}
+PeakContainer(fmt) == Major(fmt) \in {M_WAV, M_WAVEX, M_AIFF, M_CAF}
+
+\* magnitude key of item i of the content (an integer; comparable within one file)
+ItemKey(s, cv, i) ==
+    IF cv.kt[i] \in {"f", "d"} THEN Abs(DyOver(cv.val[i], GridQ))
+    ELSE Abs(cv.val[i] \div Pow2(TypeBits(cv.kt[i]) - IntWidth(Sub(s.fmt))))      \* the stored code of an integer sample
+AllKnown(s, cv) ==
+    /\ Len(cv.kt) = s.frames * s.ch /\ Len(cv.kt) > 0
+    /\ \A i \in 1..Len(cv.kt) :
+          \/ (cv.kt[i] \in {"f", "d"} /\ IsFloatEnc(s.fmt) /\ Get(cfg, "fmode", 0) = 1 /\ OnGrid(cv.val[i], GridQ))
+          \/ (cv.kt[i] \in {"s", "i"} /\ IsPcmInt(s.fmt) /\ IntWidth(Sub(s.fmt)) <= TypeBits(cv.kt[i]))
+ChanIdx(s, c) == {i \in 1..(s.frames * s.ch) : (i - 1) % s.ch = c - 1}
+MaxKey(s, cv, I) == IF I = {} THEN 0 ELSE LET m == CHOOSE i \in I : \A j \in I : ItemKey(s, cv, j) <= ItemKey(s, cv, i) IN ItemKey(s, cv, m)
+FirstAt(s, cv, I, k) == (CHOOSE i \in I : ItemKey(s, cv, i) = k /\ \A j \in I : (j < i => ItemKey(s, cv, j) # k))
+\* the dyadic a command must return for magnitude key k
+KeyValue(s, k, norm) ==
+    IF IsFloatEnc(s.fmt) THEN DyNorm(k, -GridQ)
+    ELSE IF norm THEN DyNorm(k, -(IntWidth(Sub(s.fmt)) - 1)) ELSE DyNorm(k, 0)
+
+CalcValsOK(s, cv, e) ==
+    (AllKnown(s, cv) /\ s.mode # SFM_WRITE /\ ~s.relax) =>
+      LET norm == e.name \in {"CALC_NORM_SIGNAL_MAX", "CALC_NORM_MAX_ALL_CHANNELS"}
+          all  == 1..(s.frames * s.ch) IN
+      CASE e.name \in {"CALC_SIGNAL_MAX", "CALC_NORM_SIGNAL_MAX"} ->
+               e.ret = 0 /\ e.vals[1] = KeyValue(s, MaxKey(s, cv, all), norm)
+        [] e.name \in {"CALC_MAX_ALL_CHANNELS", "CALC_NORM_MAX_ALL_CHANNELS"} ->
+               e.ret = 0 /\ \A c \in 1..s.ch : e.vals[c] = KeyValue(s, MaxKey(s, cv, ChanIdx(s, c)), norm)
+        [] OTHER -> TRUE
+\* after re-open of a float/double file in a PEAK container: the stored peaks are the true maxima, at their first frame
+HasPeak(s, cv) == AllKnown(s, cv) /\ IsFloatEnc(s.fmt) /\ PeakContainer(s.fmt) /\ s.mode = SFM_READ /\ ~s.relax
+GetMaxOK(s, cv, e) ==
+    HasPeak(s, cv) =>
+      CASE e.name = "GET_SIGNAL_MAX" -> e.ret = 1 /\ e.vals[1] = KeyValue(s, MaxKey(s, cv, 1..(s.frames * s.ch)), FALSE)
+        [] e.name = "GET_MAX_ALL_CHANNELS" -> e.ret = 1 /\ \A c \in 1..s.ch : e.vals[c] = KeyValue(s, MaxKey(s, cv, ChanIdx(s, c)), FALSE)
+        [] OTHER -> TRUE
+PeakQOK(s, cv, e) ==
+    HasPeak(s, cv) =>
+      /\ e.present = 1 /\ e.nch = s.ch
+      /\ \A c \in 1..s.ch :
+            LET I == ChanIdx(s, c) k == MaxKey(s, cv, I) IN
+            /\ e.vals[c] = KeyValue(s, k, FALSE)
+            /\ e.pos[c] = (FirstAt(s, cv, I, k) - 1) \div s.ch
 
 -----------------------------------------------------------------------------
 \* C13: application chunks (sf_set_chunk and the iterator functions)
@@ -131,7 +180,9 @@ CallOK(s, cv, e) ==
          [] e.op = "seek"  -> SeekOK(s, cv, c, o)
          [] e.op = "trunc" -> TruncOK([s EXCEPT !.relax = s.relax \/ s.route = "vio"], cv, c, o)
          [] e.op = "cmd"   -> CmdOK(s, cv, c, o)
-         [] e.op = "calc"  -> CalcOK(s, cv, c, o) \/ (s.mode = SFM_RDWR /\ Get(cfg, "f10", 0) = 1)
+         [] e.op = "calc"  -> CalcOK(s, cv, c, o) /\ e.st.nd = s.nd /\ e.st.nf = s.nf      \* position and normalisation as they were
+                              /\ CalcValsOK(s, cv, e) /\ GetMaxOK(s, cv, e)
+         [] e.op = "peakq" -> SamePos(s, o) /\ PeakQOK(s, cv, e)
          [] e.op = "setchunk" -> SetChunkOK(s, e)
          [] e.op = "chit"   -> SamePos(s, o) /\ ChItOK(s, e)
          [] e.op = "chnext" -> SamePos(s, o) /\ ChNextOK(s, e)
@@ -163,7 +214,7 @@ NewHandle(e, cid, B, relax) ==
      B |-> B, gran |-> IsGranular(e.fmt), skb |-> (e.st.sk # 0),      \* (SF_INFO.seekable is zeroed for write handles; the handle itself knows)
      frames |-> IF ModeOf(e.mode) = SFM_WRITE THEN 0 ELSE IF relax THEN Min(e.st.fr, 1000000) ELSE e.st.fr, rpos |-> e.st.rp, wpos |-> e.st.wp, err |-> (e.st.er # 0),
      hw |-> (e.st.hw # 0), auto |-> FALSE, relax |-> relax, cid |-> cid, fid |-> e.fid, route |-> e.route, meta |-> <<>>,
-     wch |-> <<>>, rch |-> <<>>, it |-> [mode |-> "none"]]
+     wch |-> <<>>, rch |-> <<>>, it |-> [mode |-> "none"], nd |-> e.st.nd, nf |-> e.st.nf]
 
 OpenFailedOK(e) == /\ e.gerr # 0 /\ e.gmsg > 0              \* C09: NULL, global error with a message
                    /\ Get(e, "fdleak", 0) = 0               \* C16: nothing left behind
